@@ -17,7 +17,11 @@ Inductive case :=
         (users : list (Z * Z))                     (* per user socket: 0 open, unserved | 1 closed | 2+c bridged to conn c *)
         (starts : list (Z * bytes * bytes * Z))  (* StartWorkConn read on conn: proxy name, src addr, src port *)
 | CHand (group : bool) (reqs : list hreq) (sched : list Z)
-        (fates : list (Z * Z)).                  (* per user socket: 1 accepted | 2 closed | 3 still open with no peer *)
+        (fates : list (Z * Z))                   (* per user socket: 1 accepted | 2 closed | 3 still open with no peer *)
+| CVis (cap : Z) (reqs : list ireq) (sched : list Z)
+       (loop_ended : Z)                           (* the accept loop: 0 still running | 1 seen to return | 2 not observable: the
+                                                     listener is closed and the real accept goroutine had its time *)
+       (fates : list (Z * Z)).                    (* per visitor socket: 1 handed to the handler | 2 closed | 3 open, unserved *)
 
 Definition sched_of (l : list (Z * Z)) : list nat :=
   List.concat (map (fun p => repeat (Z.to_nat (fst p)) (Z.to_nat (snd p))) l).
@@ -67,6 +71,15 @@ Definition hand_code (f : hfate) : Z :=
   | HNoConn => 9
   end.
 
+Definition vis_code (f : ifate) : Z :=
+  match f with
+  | IHandled => 1
+  | IClosed => 2
+  | IQueued => 3
+  | IOffered => 8
+  | INoConn => 9
+  end.
+
 Definition check_case (c : case) : Z :=
   match c with
   | CPool cpc smax reqs dead phases torn conns users starts =>
@@ -83,6 +96,15 @@ Definition check_case (c : case) : Z :=
       let cfg := if group then h_group_cfg reqs else h_vhost_cfg reqs in
       let s := h_exec cfg (map Z.to_nat sched) in
       if forallb (fun p => hand_code (hs_fate s (Z.to_nat (fst p))) =? snd p) fates then 0 else 11
+  | CVis cap reqs sched loop_ended fates =>
+      let s := il_exec {| ic_cap := cap; ic_reqs := reqs |} (map Z.to_nat sched) in
+      if negb (cap =? il_code_cap) then 40
+      else if negb (forallb (fun p => vis_code (is_fate s (Z.to_nat (fst p))) =? snd p) fates) then 41
+      else if negb ((loop_ended =? 2) ||
+                    Bool.eqb (loop_ended =? 1)
+                      (existsb (fun t => match is_thr s t with Some ILEnd => true | _ => false end)
+                               (seq 0 (length reqs)))) then 42
+      else 0
   end.
 
 (* ---- the property as a monitor on the observations alone (no model run) ---- *)
@@ -108,6 +130,9 @@ Definition C11_holds (c : case) : Z :=
       else 0
   | CHand _ _ _ fates =>
       if existsb (fun p => snd p =? 3) fates then 31 else 0
+  | CVis _ _ _ loop_ended fates =>
+      (* once the accept loop has returned no visitor connection is left open and unserved *)
+      if (1 <=? loop_ended) && existsb (fun p => snd p =? 3) fates then 51 else 0
   end.
 
 Definition is_pool (c : case) : bool := match c with CPool _ _ _ _ _ _ _ _ _ => true | _ => false end.
